@@ -186,6 +186,16 @@ PyVisibleNames(ws, f, names) == { n \in names : PyResolveSet(ws, f, n, NoDef) # 
 PyUnused(ws) ==
     { D \in AllDefs(ws) : RoleOf[D.file] # "third" /\ ~DefItem(ws, D).autouse /\ PyRefs(ws, D) = {} }
 
+(* The CLI identifies a fixture by (file, name): a redefinition in the same file is one entry.   *)
+(* Unused = project, no definition of that entry is autouse, no usage resolves to any of them.  *)
+PyUnusedNames(ws) ==
+    { [file |-> D.file, name |-> DefItem(ws, D).name] : D \in
+        { X \in AllDefs(ws) :
+            /\ RoleOf[X.file] # "third"
+            /\ \A Y \in AllDefs(ws) :
+                  (Y.file = X.file /\ DefItem(ws, Y).name = DefItem(ws, X).name)
+                  => (~DefItem(ws, Y).autouse /\ PyRefs(ws, Y) = {}) } }
+
 (* Dependency edges of a definition: each parameter resolved from its file *)
 PyDepTargets(ws, D) ==
     LET it == DefItem(ws, D) IN
